@@ -456,3 +456,17 @@ def c19(tier, seed):
     qs = c01_block_queries(576, hello_pairs=((33, 31),))
     qs += [q_probe_cap(), q_probe(tier, 3), q_query(tier, 3), q_reset(tier, 3), q_other(tier, 2), q_emit_send(), q_emit_full(3), q_qltlv("alltypes_576"), q_discover(32, 32)]
     return qs
+
+
+@prop("C02", ["per frame class (the seven classes partition the 256x256 (ToS,opcode) space; the split is asserted by unreachable-handler stubs): well-formedness oracle inside the transmit stub, exact per-opcode length rule, send-count bound",
+              "Hello inner structure decided by the positional oracle of C04 (host id first, legal length per type, no type twice follows from the fixed positional chain, end marker last byte)",
+              "determinism clause: two-world query per class - identical record and frame, independent fresh memory (CBMC heap objects are nondeterministic until written) - every transmitted byte (universally quantified index) and length equal",
+              "MTU fixed to 576 per query except the symbolic-MTU queries named *_symmtu"])
+def c02(tier, seed):
+    qs = [q_query(tier, 3), q_query(tier, 5, frame_n=100, name="query_smallmtu"), q_probe(tier, 2), q_reset(tier, 2), q_other(tier, 2), q_sweep(tier),
+          q_discover(0, 0), q_discover(33, 40), q_emit_send(), q_emit_full(3), q_emit_loop(576),
+          q_qltlv("alltypes_576"), q_qltlv("alltypes_symmtu", frame_n=9216, mtu_min=576), q_query(tier, 3, frame_n=640, mtu_min=576, name="query_symmtu")]
+    qs += q_rel(0)
+    if tier == "thorough":
+        qs += [q_discover(h, s) for h in LEN_EDGE for s in (1, 31)] + [q_query(tier, 29)]
+    return qs
